@@ -92,24 +92,35 @@ package parser
 //@   loop 4 invariant model.packetsNonNil(v.BinModel)
 
 //@ pred lengthOK(lf *model.Field) := lf != nil ==> (fieldOK(lf) && typeis(lf.Attr, *model.LengthFieldAttribute))
+//@ pred newErrorsHaveLines(m *model.BinaryModel, n int) := len(m.SyntaxErrors) >= n && forall(i, n, len(m.SyntaxErrors), m.SyntaxErrors[i] != nil && m.SyntaxErrors[i].Line >= 1)
+
 //@ func (*PacketDslVisitorImpl).VisitPacketDefinition
 //@   ensures typeis(result, *model.Packet) && unbox(result, *model.Packet) != nil && model.fieldsNonNil(unbox(result, *model.Packet))
+//@   ensures [C12:D4-line] newErrorsHaveLines(self.BinModel, old(len(self.BinModel.SyntaxErrors))) && forall(i, 0, old(len(self.BinModel.SyntaxErrors)), self.BinModel.SyntaxErrors[i] == old(self.BinModel.SyntaxErrors[i]))
 //@   loop 0 invariant forall(i, 0, len(fields), fieldOK(fields[i])) && lengthOK(lengthField)
+//@   loop 0 invariant newErrorsHaveLines(self.BinModel, old(len(self.BinModel.SyntaxErrors))) && forall(i, 0, old(len(self.BinModel.SyntaxErrors)), self.BinModel.SyntaxErrors[i] == old(self.BinModel.SyntaxErrors[i])) && forall(j, 0, len(fields), haskey(positions, fields[j]) && positions[fields[j]][0] >= 1)
 //@   loop 1 invariant forall(i, 0, len(fields), fieldOK(fields[i])) && lengthOK(lengthField)
+//@   loop 1 invariant newErrorsHaveLines(self.BinModel, old(len(self.BinModel.SyntaxErrors))) && forall(i, 0, old(len(self.BinModel.SyntaxErrors)), self.BinModel.SyntaxErrors[i] == old(self.BinModel.SyntaxErrors[i])) && forall(j, 0, len(fields), haskey(positions, fields[j]) && positions[fields[j]][0] >= 1)
 
 //@ func (*PacketDslVisitorImpl).VisitFieldDefinitionWithAttribute
 //@   ensures isField(result)
+//@   ensures [C12:pad-line] newErrorsHaveLines(self.BinModel, old(len(self.BinModel.SyntaxErrors))) && forall(i, 0, old(len(self.BinModel.SyntaxErrors)), self.BinModel.SyntaxErrors[i] == old(self.BinModel.SyntaxErrors[i]))
 //@   loop 0 invariant fieldOK(f)
+//@   loop 0 invariant newErrorsHaveLines(self.BinModel, old(len(self.BinModel.SyntaxErrors))) && forall(i, 0, old(len(self.BinModel.SyntaxErrors)), self.BinModel.SyntaxErrors[i] == old(self.BinModel.SyntaxErrors[i]))
 
 //@ func (*PacketDslVisitorImpl).VisitFieldDefinition
+//@   ensures [C12:new-errors-have-lines] newErrorsHaveLines(self.BinModel, old(len(self.BinModel.SyntaxErrors))) && forall(i, 0, old(len(self.BinModel.SyntaxErrors)), self.BinModel.SyntaxErrors[i] == old(self.BinModel.SyntaxErrors[i]))
 //@   requires isnode(ctx, fieldDefinition)
 //@   ensures isField(result)
 //@   decreases 2*depth(ctx) + 1
 
 //@ func (*PacketDslVisitorImpl).VisitInerObjectField
+//@   ensures [C12:new-errors-have-lines] newErrorsHaveLines(self.BinModel, old(len(self.BinModel.SyntaxErrors))) && forall(i, 0, old(len(self.BinModel.SyntaxErrors)), self.BinModel.SyntaxErrors[i] == old(self.BinModel.SyntaxErrors[i]))
 //@   ensures isField(result)
 //@   loop 0 invariant forall(i, 0, len(subFields), fieldOK(subFields[i]))
 //@   loop 2 invariant forall(i, 0, len(subFields), fieldOK(subFields[i]))
+//@   loop 0 invariant newErrorsHaveLines(self.BinModel, old(len(self.BinModel.SyntaxErrors))) && forall(i, 0, old(len(self.BinModel.SyntaxErrors)), self.BinModel.SyntaxErrors[i] == old(self.BinModel.SyntaxErrors[i]))
+//@   loop 2 invariant newErrorsHaveLines(self.BinModel, old(len(self.BinModel.SyntaxErrors))) && forall(i, 0, old(len(self.BinModel.SyntaxErrors)), self.BinModel.SyntaxErrors[i] == old(self.BinModel.SyntaxErrors[i]))
 //@   decreases 2*depth(ctx)
 
 //@ func (*PacketDslVisitorImpl).VisitLengthFieldDeclaration
@@ -119,15 +130,22 @@ package parser
 //@   ensures isField(result)
 
 //@ func (*PacketDslVisitorImpl).metaDataDeclarationToField
+//@   ensures [C12:new-errors-have-lines] newErrorsHaveLines(self.BinModel, old(len(self.BinModel.SyntaxErrors))) && forall(i, 0, old(len(self.BinModel.SyntaxErrors)), self.BinModel.SyntaxErrors[i] == old(self.BinModel.SyntaxErrors[i]))
 //@   ensures isField(result)
 
 //@ func (*PacketDslVisitorImpl).VisitMatchFieldDeclaration
+//@   ensures [C12:new-errors-have-lines] newErrorsHaveLines(self.BinModel, old(len(self.BinModel.SyntaxErrors))) && forall(i, 0, old(len(self.BinModel.SyntaxErrors)), self.BinModel.SyntaxErrors[i] == old(self.BinModel.SyntaxErrors[i]))
 //@   ensures isField(result)
 //@   loop 0 invariant len(pairs) >= rangeindex + 1
+//@   loop 0 invariant forall(k, 0, len(pairs), pairs[k].Line >= 1)
+//@   loop 1 invariant forall(k, 0, len(pairs), pairs[k].Line >= 1)
+//@   loop 1 invariant newErrorsHaveLines(self.BinModel, old(len(self.BinModel.SyntaxErrors))) && forall(i, 0, old(len(self.BinModel.SyntaxErrors)), self.BinModel.SyntaxErrors[i] == old(self.BinModel.SyntaxErrors[i]))
 
 //@ func (*PacketDslVisitorImpl).VisitMatchPair
 //@   ensures typeis(result, []model.MatchPair) && len(unbox(result, []model.MatchPair)) >= 1
+//@   ensures [C12:pair-lines] forall(k, 0, len(unbox(result, []model.MatchPair)), unbox(result, []model.MatchPair)[k].Line >= 1)
 //@   loop 0 invariant rangeindex >= 1 ==> len(pairs) >= 1
+//@   loop 0 invariant forall(k, 0, len(pairs), pairs[k].Line >= 1)
 
 //@ func ParseFile
 //@   ensures result1 == nil ==> typeis(result0, *model.BinaryModel) && allocated(unbox(result0, *model.BinaryModel).PacketsMap)
